@@ -38,7 +38,7 @@ CHECKS = {
     "C01": dict(
         engine="corr-trace",
         technique="Coq proof of the decision links (start needs a positive run decision; a clean scan saw every set state in own/shared pool; a passing run leaves its states in the own pool) + trace refinement: hand-driven real coroutines vs the Gallina traversal model, section by section; availability itself is a monitor on the implementation's pools",
-        text=("For any number of workers, every graph meeting fw_ok_b (checked on every exported graph), pool population and schedule: whenever a test is started, every worker named as a source in its get locations has a PASS result on a copy of a parent, and every unmarked state that copy sets is in that worker's own pool, then and for the rest of the run (C01_named_sources_hold_the_states, Proofs/TraverseSrc.v). PARTIAL: proved for the plain sequential configuration, REFUTED (known findings) for several workers. Proved over Model/Traverse*.v: C01_available_at_start_single_worker (Proofs/TraverseAvail.v) - for every graph meeting simple_b (one worker, no bridged copies, no state marked for removal, no permanent-object install, own and shared pool in scope; evaluated on the exported single-worker graphs), every initial pool population and every schedule: right after the section that starts a test, every state an ordinary own parent sets is in the own or shared pool, unless that parent has results none of which is a PASS; plus the links of the availability argument for all graphs/states (C01_*_partial). The end-to-end statement is false of the faithful model and of the code when the only copy of a state was left in ANOTHER worker's own pool by an earlier run (known finding), and when the reuse scope derived from pool_scope ignores a disabled pool scope (remote cluster mates without 'swarm', lxc beside remote without 'cluster': second known finding); both are reported as KNOWN-FINDING with their exact signatures, any other unavailable state is a VIOLATION. The monitor checks, at every test start observed on the real code, that each required state is in a place the test may fetch from - the worker's own pool (scope own), the shared pool (scope shared) or a pool named in get_location whose distance scope (swarm / cluster) is enabled - unless its producer (or creation pre-step) was attempted and did not pass. The model is compared with the real traversal on every atomic section of every generated run."),
+        text=("PARTIAL: proved for the plain sequential configuration, REFUTED (known findings) for several workers. For any number of workers, every graph meeting fw_ok_b (checked on every exported graph), pool population and schedule: whenever a test is started, every worker named as a source in its get locations has a PASS result on a copy of a parent, and every unmarked state that copy sets is in that worker's own pool, then and for the rest of the run (C01_named_sources_hold_the_states, Proofs/TraverseSrc.v). Proved over Model/Traverse*.v: C01_available_at_start_single_worker (Proofs/TraverseAvail.v) - for every graph meeting simple_b (one worker, no bridged copies, no state marked for removal, no permanent-object install, own and shared pool in scope; evaluated on the exported single-worker graphs), every initial pool population and every schedule: right after the section that starts a test, every state an ordinary own parent sets is in the own or shared pool, unless that parent has results none of which is a PASS; plus the links of the availability argument for all graphs/states (C01_*_partial). The end-to-end statement is false of the faithful model and of the code when the only copy of a state was left in ANOTHER worker's own pool by an earlier run (known finding), and when the reuse scope derived from pool_scope ignores a disabled pool scope (remote cluster mates without 'swarm', lxc beside remote without 'cluster': second known finding); both are reported as KNOWN-FINDING with their exact signatures, any other unavailable state is a VIOLATION. The monitor checks, at every test start observed on the real code, that each required state is in a place the test may fetch from - the worker's own pool (scope own), the shared pool (scope shared) or a pool named in get_location whose distance scope (swarm / cluster) is enabled - unless its producer (or creation pre-step) was attempted and did not pass. The model is compared with the real traversal on every atomic section of every generated run."),
         note=TRAV_NOTE,
         design="§5 C01"),
     "C02": dict(
